@@ -373,6 +373,7 @@ impl<T: Value + Send + Sync, N: Unsigned, U: UpdateMap<T>> List<T, N, U> {
             &self.interface.backing.tree,
             &mut known_subtrees,
             self.interface.backing.depth,
+            self.interface.backing.length.as_usize(),
         )? {
             self.interface.backing.tree = new_tree;
         }
